@@ -492,3 +492,94 @@ def gen_bits(rng, tier):
             if abs(s) <= lim:
                 ops.append(f"bits.signed {hx(n)} {s}")
     return ops
+
+
+# ---------------------------------------------------------------- C09 packed arrays
+def packed_insts():
+    import math
+    out = []
+    for b in range(1, 33):
+        for S in (8, 16, 32, 64):
+            period = S // math.gcd(b, S)
+            if all(((i * b) % S) + b <= 2 * S for i in range(period)):
+                out.append((b, S, "d"))
+    out += [(12, 8, "c"), (12, 8, "p"), (12, 32, "q"), (3, 8, "c"), (7, 8, "c"), (16, 8, "c")]
+    return out
+
+
+def gen_packed(rng, tier):
+    ops = []
+    reps = 1 if tier == "quick" else 6
+    for (b, S, var) in packed_insts():
+        vmax = (1 << b) - 1
+        for _ in range(reps):
+            # A: element isolation with arbitrary prior contents; storage is exactly n slots
+            n = rng.choice([1, 2, 3, 5, 8])
+            cap = (n * S) // b
+            if cap == 0:
+                n = (b + S - 1) // S + 1
+                cap = (n * S) // b
+            init = rng.choice(["0", "f", "r" + hx(rng.getrandbits(60))])
+            steps = []
+            ref = {}
+            for _k in range(rng.randint(8, 30)):
+                i = rng.choice([0, cap - 1, rng.randrange(cap), rng.randrange(cap)])
+                c = rng.random()
+                if c < 0.6 or i not in ref:
+                    v = rng.choice([0, vmax, 1, 1 << (b - 1), rng.getrandbits(b)])
+                    steps.append(f"set:{hx(i)}:{hx(v)}")
+                    ref[i] = v
+                elif c < 0.8:
+                    room = vmax - ref[i]
+                    d = rng.choice([0, min(1, room), room, rng.randint(0, room)])
+                    steps.append(f"incr:{hx(i)}:{d}")
+                    ref[i] += d
+                else:
+                    steps.append(f"half:{hx(i)}")
+                    ref[i] //= 2
+            ops.append(f"packed.hist b={hx(b)} s={hx(S)} v={var} n={hx(n)} init={init} " + " ".join(steps))
+            # B: sorted multiset semantics
+            n = rng.choice([2, 4, 9])
+            cap = max(1, (n * S) // b)
+            if cap < 3:
+                n = (3 * b + S - 1) // S + 1
+                cap = (n * S) // b
+            arr = []
+            steps = []
+            pool = [rng.getrandbits(b) for _ in range(6)] + [0, vmax]
+            for _k in range(rng.randint(10, 40)):
+                c = rng.random()
+                v = rng.choice(pool)
+                if (c < 0.5 and len(arr) < cap - 1) or not arr:
+                    if len(arr) >= cap - 1:
+                        continue
+                    steps.append(f"inss:{hx(len(arr))}:{hx(v)}")
+                    import bisect
+                    arr.insert(bisect.bisect_left(arr, v), v)
+                elif c < 0.65:
+                    steps.append(f"mem:{hx(len(arr))}:{hx(v)}")
+                elif c < 0.8:
+                    steps.append(f"bs:{hx(len(arr))}:{hx(v)}")
+                elif c < 0.92:
+                    steps.append(f"delm:{hx(len(arr))}:{hx(v)}")
+                    if v in arr:
+                        arr.remove(v)
+                else:
+                    off = rng.randrange(len(arr))
+                    steps.append(f"del:{hx(len(arr))}:{hx(off)}")
+                    arr.pop(off)
+            ops.append(f"packed.hist b={hx(b)} s={hx(S)} v={var} n={hx(n)} init=0 " + " ".join(steps))
+            # C: positional insert / delete
+            ln = 0
+            steps = []
+            for _k in range(rng.randint(6, 25)):
+                if ln < cap - 1 and (ln == 0 or rng.random() < 0.6):
+                    off = rng.randint(0, ln)
+                    steps.append(f"ins:{hx(ln)}:{hx(off)}:{hx(rng.getrandbits(b))}")
+                    ln += 1
+                elif ln > 0:
+                    off = rng.randrange(ln)
+                    steps.append(f"del:{hx(ln)}:{hx(off)}")
+                    ln -= 1
+            ops.append(f"packed.hist b={hx(b)} s={hx(S)} v={var} n={hx(n)} init={rng.choice(['0', 'f'])} " + " ".join(steps))
+    return ops
